@@ -18,6 +18,9 @@ RELS = {
     'm2m': {'Article': [('tags', 'm2m:1:0:1')], 'Tag': [('articles', 'm2m:0:0:0')]},
 }
 TID = {'Article': 0, 'Tag': 1}
+# relationship numbers for the recursion model (class table / relationship number / specification)
+RELNO = {'tags': 0, 'article': 1, 'articles': 1}
+REG = {'articles': '0/0/o2m:1:1;1/1/m2o:0:1', 'm2m': '0/0/m2m:1:0:1;1/1/m2m:0:0:0'}
 # dotted (two-level, cyclic) relationship paths per shape and class: they lead back to the class of the target
 DOTTED = {
     'articles': {'Article': [('tags', 'tags.article')], 'Tag': [('article', 'article.tags')]},
@@ -163,7 +166,8 @@ class C05(Prop):
     theorems = ['Continuum.c05_target', 'Continuum.c05_delete_target', 'Continuum.c05_target_frame', 'Continuum.c05_o2m',
                 'Continuum.c05_o2m_frame', 'Continuum.c05_m2m', 'Continuum.c05_m2m_frame', 'Continuum.c05_m2m_idem_eq',
                 'Continuum.c05_m2o', 'Continuum.c05_m2o_frame', 'Continuum.c05_target_nested', 'Continuum.c05_delete_target_nested',
-                'Continuum.revertN_keeps_visited', 'Continuum.history_all']
+                'Continuum.revertN_keeps_visited', 'Continuum.c05_every_level', 'Continuum.revertNL_erase',
+                'Continuum.revertNL_log_nodup', 'Continuum.revertNL_target_logged', 'Continuum.history_all']
     workers = 14
     chunk = 1
     rule = ('random histories on the Article 1-n Tag shape (optionally with an excluded column) and the many-to-many shape, both '
@@ -176,7 +180,7 @@ class C05(Prop):
     assumptions = ['nested / cyclic relation paths are not enumerated (first-level relationships only)',
                    'that the revert transaction is itself versioned correctly is C01/C02/C11 (history_all)']
     needs_tags = ['target_delete_version', 'entity_deleted_now', 'rel:o2m', 'rel:m2m', 'rel:m2o', 'middle_version', 'excluded_col',
-                  'repeated_revert', 'dotted_path']
+                  'repeated_revert', 'dotted_path', 'dotted_second_level_entity']
 
     def counts(self, tier):
         return 20 if tier == "quick" else 500
@@ -261,6 +265,10 @@ class C05(Prop):
                 lines.append('c05lb ' + r)
             specs = dict(RELS[case['shape']][cname])
             rels = ';'.join(specs[n] for n in res['rels']) or '-'
+            if res.get('dotted'):
+                # every level of the path: the log of versions the recursion model reverts, C05.DeepHolds on the rows after
+                lines.append('q05n %d %s %d %s %s' % (TID[cname], pk[0], tx, REG[case['shape']],
+                                                     '.'.join(str(RELNO[n]) for n in res['dotted'].split('.'))))
             lines.append('q05 %d %s %d %s' % (TID[cname], pk[0], tx, rels))
             lines.append('reset')
         return lines
@@ -297,11 +305,22 @@ class C05(Prop):
                 out.violations.append({'clause': 'C05.revert_raised:%s:%s' % (e['type'], 'delete_version' if op == 2 else 'version'),
                                        'detail': {'target': res['target'], 'rels': res['rels'], 'error': e, 'entity_live': live_now}})
                 continue
+            deep = None
+            if res.get('dotted'):
+                deep = answers[k].split(' ')
+                k += 1
             ans = answers[k]
             k += 1
             target, relbits, frame, modelbits = ans.split(' ')
             det = {'target': res['target'], 'rels': res['rels'], 'before': res['before']['live'], 'after': res['after']['live'],
                    'links_after': res['after']['links']}
+            if deep is not None and op != 2:
+                # c05_every_level: every version the recursion reverts (second level included) has its entity at its values
+                if int(deep[2]) >= 1:
+                    out.tags.append('dotted_second_level_entity')
+                if deep[0] != '1':
+                    out.violations.append({'clause': 'C05.DeepHolds:' + res['dotted'],
+                                           'detail': dict(det, reverted_versions=int(deep[1]), versions=res['versions'])})
             if target != '1':
                 out.violations.append({'clause': 'C05.TargetHolds', 'detail': det})
             # a DELETE version has no related state to restore: the entity is simply absent afterwards
